@@ -1628,7 +1628,7 @@ def b_exc_info(run):
 def native_attr(run, v, name):
     obj = v.obj
     if isinstance(obj, logging.Logger):
-        if name in ("debug", "info", "warning", "error", "critical", "exception", "log"):
+        if name in ("debug", "info", "warning", "error", "critical", "exception", "log", "setLevel"):
             return VModel(lambda run, *a, **kw: NONE, f"Logger.{name}")
         if name == "isEnabledFor":
             return VModel(lambda run, *a: mk_bool(run, False), "Logger.isEnabledFor")
@@ -1665,6 +1665,9 @@ def instance_attr(run, v, name):
 
 def native_iter(run, v):
     obj = v.obj
+    import sys as _s
+    if obj is _s.stdin and "stdin_iter" in run.ghost:
+        return None
     if isinstance(obj, (tuple, list, frozenset, set)):
         return iter([_se().lift(x) for x in obj])
     return None
